@@ -120,17 +120,26 @@ type c35sReplay struct {
 // c35sSend sends q through entry on a live connection. It returns the outcome signature, and the
 // recovered panic value if the handler died.
 func c35sSend(c *c35sConn, entry, q string) (string, any, error) {
-	var err error
-	if entry == "simple-query" {
-		err = c.frontend.Send(&pgproto3.Query{String: q})
-	} else {
-		if err = c.frontend.Send(&pgproto3.Parse{Name: "", Query: q}); err == nil {
-			err = c.frontend.Send(&pgproto3.Sync{})
+	// net.Pipe is unbuffered: send from a goroutine so that the handler may answer the first message
+	// while the second is still being written
+	sendErr := make(chan error, 1)
+	go func() {
+		var err error
+		if entry == "simple-query" {
+			err = c.frontend.Send(&pgproto3.Query{String: q})
+		} else {
+			if err = c.frontend.Send(&pgproto3.Parse{Name: "", Query: q}); err == nil {
+				err = c.frontend.Send(&pgproto3.Sync{})
+			}
 		}
+		sendErr <- err
+	}()
+	out, err := c35sUntilReady(c.frontend)
+	if err != nil {
+		c.client.Close() // unblocks a sender stuck on a dead handler
 	}
-	var out string
-	if err == nil {
-		out, err = c35sUntilReady(c.frontend)
+	if serr := <-sendErr; err == nil {
+		err = serr
 	}
 	if err == nil {
 		return out, nil, nil
